@@ -104,16 +104,19 @@ impl CompactionWorker {
 
                 loop {
                     log::info!("Compaction thread waiting for tasks.");
-                    #[cfg(not(raindb_verif))]
-                    let channel_task = receiver.recv().unwrap();
-                    // Under verification the orphaned worker of a failed `DB::open` (its sender is
-                    // dropped without a terminate command) ends quietly instead of panicking; the
-                    // controlled runtime would otherwise abort the whole execution.
-                    #[cfg(raindb_verif)]
                     let channel_task = match receiver.recv() {
                         Ok(task) => task,
                         Err(_) => {
-                            parking_lot::verif_rt::note_orphan_worker_exit();
+                            // The sender was dropped without a terminate command e.g. because
+                            // `DB::open` failed (the lock is held by somebody else, recovery ran
+                            // into an error) after this thread was spawned. There will never be
+                            // any work for this thread so it ends. It must not panic: it runs in
+                            // the process of whoever attempted the open, which may well be the
+                            // process that owns the database.
+                            log::info!(
+                                "The compaction thread's task channel was closed. Exiting the \
+                                thread."
+                            );
                             break;
                         }
                     };
